@@ -57,6 +57,14 @@ def install():
 # ---- records -----------------------------------------------------------------------------------------------------------
 # Record k (k-th write of a history, k <= 8) with payload size n is the k-th letter (digit for json) repeated n times, so
 # that any concatenation of records parses uniquely into records and a torn record is recognisable by its length.
+# Payload size 0 is the EMPTY record of the line modes (b'' in binl, '' in txt: one '\n' on disk); it carries no letter, so
+# the reader output alone does not say which empty record an empty item is: parse() takes it for the first empty record
+# after the last record delivered (`after`), which is the only reading under which nothing was skipped or repeated as long
+# as no record is excusably passed over - searches that write empty records therefore neither delete nor prune files.
+# Payload sizes from JSON_STR_FROM up (the big-record family) are written in json mode as a string of n digits instead of an
+# n-digit integer (Python refuses to convert integers of more than 4300 digits).
+
+JSON_STR_FROM = 1000
 
 # 'txtl': txt records that contain a Unicode line-boundary character other than '\n' (what str.splitlines() splits at):
 # record k of size n is the k-th letter n times, the k-th boundary character, the letter once more.
@@ -77,6 +85,9 @@ def payload(mode: str, k: int, n: int):
     if mode == 'txtl':
         return txtl(k, n)
 
+    if n >= JSON_STR_FROM:
+        return str(k + 1) * n   # json: a string of n digits
+
     return int(str(k + 1) * n)  # json: an n-digit integer
 
 
@@ -92,12 +103,16 @@ def raw(mode: str, k: int, n: int) -> bytes:
     if mode == 'txtl':
         return txtl(k, n).encode() + b'\n'
 
+    if n >= JSON_STR_FROM:
+        return b'"' + (str(k + 1) * n).encode() + b'"\n'
+
     return (str(k + 1) * n).encode() + b'\n'
 
 
-def parse(mode: str, out, sizes: list):
+def parse(mode: str, out, sizes: list, after: int = -1):
     """Reader output -> list of record indices, or a string describing a torn / unknown record.  `sizes[k]` is the
-    payload size of record k."""
+    payload size of record k; `after`: index of the last record delivered before this output (-1: none), used only to
+    tell which empty record an empty item is (see above)."""
 
     def one(sym_ord, base, length):
         k = sym_ord - base
@@ -114,10 +129,8 @@ def parse(mode: str, out, sizes: list):
         i   = 0
 
         while i < len(seq):
-            j = i
-
-            while j < len(seq) and seq[j] == seq[i]:
-                j += 1
+            rest = seq[i:]
+            j    = i + len(rest) - len(rest.lstrip(rest[:1]))   # end of the run of equal symbols that starts at i
 
             r = one(seq[i] if isinstance(seq[i], int) else ord(seq[i]), base, j - i)
 
@@ -140,11 +153,22 @@ def parse(mode: str, out, sizes: list):
     res   = []
 
     for it in items:
+        if (it == b'' and mode == 'binl' or it == '' and mode in ('txt', 'txtw')) and isinstance(it, (bytes, str)):
+            k = next((k for k in range((res[-1] if res else after) + 1, len(sizes)) if sizes[k] == 0), None)   # an empty record
+
+            if k is None:
+                return f'{"binl" if mode == "binl" else "txt"} read returned {it!r}' + (' (no empty record was written after record ' +
+                    f'{res[-1] if res else after})' if 0 in sizes else '')
+
+            res.append(k)
+
+            continue
+
         if mode == 'binl':
             if not isinstance(it, (bytes, bytearray)) or not it:
                 return f'binl read returned {it!r}'
 
-            r = runs(it, 65)
+            r = runs(bytes(it), 65)
 
         elif mode == 'txtl':
             if not isinstance(it, str) or not it:
@@ -165,11 +189,23 @@ def parse(mode: str, out, sizes: list):
 
             r = runs(it, 65 if mode == 'txt' else 0x410)
 
+        elif isinstance(it, str):   # json, a record of the big-record family
+            if not it or it.strip('123456789'):
+                return f'json read returned {it[:40]!r}{"..." if len(it) > 40 else ""}'
+
+            r = runs(it, 49)
+
+            if not isinstance(r, str) and any(sizes[k] < JSON_STR_FROM for k in r):
+                return f'json read returned the string {it[:40]!r} for a record written as an integer'
+
         else:
             if not isinstance(it, int) or isinstance(it, bool) or it <= 0:
                 return f'json read returned {it!r}'
 
             r = runs(str(it), 49)
+
+            if not isinstance(r, str) and any(sizes[k] >= JSON_STR_FROM for k in r):
+                return f'json read returned an integer for a record written as a string of {len(str(it))} digits'
 
         if isinstance(r, str):
             return r
@@ -179,6 +215,47 @@ def parse(mode: str, out, sizes: list):
         res.append(r[0])
 
     return res
+
+
+# Reading with a mode override ("reading data back as binary to send it over ... without the overhead of decoding"):
+# read('binl') / read_block('binl') on a txt or json log hands out the raw lines, read('txt') / read_block('txt') on a binl
+# log the decoded ones.
+OVERRIDE = {'txt': 'binl', 'txtw': 'binl', 'txtl': 'binl', 'json': 'binl', 'binl': 'txt'}
+
+
+def parse_override(mode: str, out, sizes: list, after: int = -1):
+    """parse() for the output of read(OVERRIDE[mode]) / read_block(OVERRIDE[mode]) on a log of mode `mode`: every item is
+    converted to what a read in the log's own mode returns (the conversion is the harness's, not rolllog's)."""
+
+    import json
+
+    over  = OVERRIDE[mode]
+    items = out if isinstance(out, list) else [out]
+    conv  = []
+
+    for it in items:
+        if over == 'binl':
+            if not isinstance(it, (bytes, bytearray)):
+                return f"read with mode 'binl' returned {type(it).__name__} {it!r:.60}"
+
+            try:
+                it = bytes(it).decode()
+
+                if mode == 'json':
+                    it = json.loads(it)
+
+            except ValueError as exc:
+                return f"read with mode 'binl' returned a line that is no whole record: {it[:40]!r}... ({type(exc).__name__})"
+
+        else:
+            if not isinstance(it, str):
+                return f"read with mode 'txt' returned {type(it).__name__} {it!r:.60}"
+
+            it = it.encode()
+
+        conv.append(it)
+
+    return parse(mode, conv if isinstance(out, list) else conv[0], sizes, after)
 
 
 # ---- scratch ---------------------------------------------------------------------------------------------------------
